@@ -42,7 +42,7 @@ def unit(model, sizes):
             pls.append((i, W.run("predict_draw", player_order={i: po})))
     sd = W.spec("draw")
     P = W.prover()
-    mono = W.phi_monotone()
+    mono = W.phi_monotone(P)
     d = term(base[1])
     zero, one = z3.RealVal(0), z3.RealVal(1)
     # the sign test inside abs(): S >= 0 from Phi-monotonicity instances
